@@ -155,7 +155,7 @@ impl Scenario for EcdsaNet {
                     }
                     let pairing = *rng.pick(&["right", "right", "right", "right", "other_msg", "other_hash", "other_key", "neg_key", "offcurve_key"]);
                     events.push(json!({"op": "deliver", "slot": rng.below(slots), "pairing": pairing, "verifier": *rng.pick(&["verify_digest", "verify_hashbuf", "sig_verify_message", "pk_verify_message", "is_valid_message"]),
-                        "other_key": gen_key(rng), "flip": rng.below(1 << 16), "other_encoding": rng.chance(1, 3), "wire": *rng.pick(&["", "", "der", "compact"])}));
+                        "other_key": gen_key(rng), "flip": rng.below(1 << 16), "other_encoding": rng.chance(1, 3), "wire": *rng.pick(&["", "", "der", "compact"]), "hybrid_encoding": rng.chance(1, 10)}));
                 }
                 2 => {
                     if slots == 0 {
@@ -538,7 +538,21 @@ impl Scenario for EcdsaNet {
                         ctx.fault("mispair:key");
                         ctx.probe("verified_under_off_curve_key");
                     }
-                    let pk = match PublicKey::from_bytes(&pkb) {
+                    // the textbook verifier always gets the canonical encoding of the same point
+                    let mut hybrid_pkb: Option<Vec<u8>> = None;
+                    if jbool(ev, "hybrid_encoding") && !offcurve {
+                        // SEC1 hybrid form (06/07 || X || Y): a library may refuse it, but if it takes it, it is the same point
+                        let u = rf::pubkey_of(&vkey, false).unwrap();
+                        let mut h = u.clone();
+                        h[0] = 0x06 | (u[64] & 1);
+                        if PublicKey::from_bytes(&h).is_ok() {
+                            ctx.probe("hybrid_key_encoding_accepted");
+                            hybrid_pkb = Some(h);
+                        } else {
+                            ctx.probe("hybrid_key_encoding_refused");
+                        }
+                    }
+                    let pk = match PublicKey::from_bytes(hybrid_pkb.as_ref().unwrap_or(&pkb)) {
                         Ok(p) => p,
                         Err(_) => {
                             ctx.skip();
